@@ -161,12 +161,25 @@ def guarded_observe(mod, ctx, inp):
         lg.addHandler(logging.NullHandler())
         lg.propagate = False
     lg.setLevel(logging.DEBUG if _hang["case"] % 2 else logging.WARNING)
+    # Every few hundred cases: one round of ordinary use of the REST of the library in this process (conversion helpers, name
+    # cleaning, sizes, decodes of valid and corrupt packed / zoned / binary fields, a copybook parsed, loaded and read).  Nothing
+    # is observed there; what such use leaves behind (the thread's decimal context, a module-level cache) shows in the cases that
+    # follow.  A runner opts out with AMBIENT = False (C11 models the process-wide state itself).
+    do_ambient = getattr(mod, "AMBIENT", True) and _hang["case"] % 397 == 5
     old_p = signal.signal(signal.SIGPROF, _alarm)
     old_r = signal.signal(signal.SIGALRM, _alarm)
     signal.setitimer(signal.ITIMER_PROF, CASE_TIMEOUT)
     signal.setitimer(signal.ITIMER_REAL, CASE_WALL_BACKSTOP)
     _hang["crash"] = None
     try:
+        if do_ambient:
+            try:
+                import codec_common
+                codec_common.ambient_now()
+            except (KeyboardInterrupt, SystemExit, MemoryError, CaseTimeout):
+                raise
+            except BaseException:
+                pass
         case = mod.observe(ctx, inp)
     except CaseTimeout:
         case = None
